@@ -4,7 +4,8 @@
    the word-level rank/popcount code - is covered by the sampled runs only (see lib/props.py, level_note). *)
 From Coq Require Import NArith List Bool Arith Relations.
 From DBG Require Import Spec.Dna Spec.GraphIndex Algo.BBHash Proofs.BBHashProofs.
-From Coq Require Import Lia.
+From Coq Require Import Lia Permutation.
+From DBG Require Import Proofs.BBHashOrder.
 Import ListNotations.
 Local Open Scope nat_scope.
 
@@ -111,6 +112,21 @@ Proof. exact find_link_exact_par. Qed.
 Print Assumptions C19_search_kmer_exact.
 Print Assumptions C19_find_link_exact.
 Print Assumptions C19_find_link_exact_parallel.
+
+(* Strengthening: the MPHF is a function of the SET of keys.  Even if every level's parallel
+   filter_map().collect() handed the redo keys over in an arbitrary order ([mphf_par_u]: any permutation), the
+   result is the serial one - rayon's order-preservation contract is not needed for finish() = finish_serial().
+   (Seen in the runs too: building the index from the reversed key vector serialises to the same bytes.) *)
+Theorem C19_mphf_parallel_any_collect_order : forall (h : nat -> nat -> key -> nat) (sz : nat -> nat),
+  (forall iter n k, h iter (sz n) k < sz n) ->
+  forall keys r, mphf_par_u h sz keys r -> r = mphf_new h sz keys.
+Proof. exact mphf_par_u_eq. Qed.
+Theorem C19_mphf_key_order_irrelevant : forall (h : nat -> nat -> key -> nat) (sz : nat -> nat),
+  (forall iter n k, h iter (sz n) k < sz n) ->
+  forall keys keys', Permutation keys keys' -> mphf_new h sz keys = mphf_new h sz keys'.
+Proof. exact mphf_new_perm. Qed.
+Print Assumptions C19_mphf_parallel_any_collect_order.
+Print Assumptions C19_mphf_key_order_irrelevant.
 
 (* ---- non-vacuity *)
 (* a complete schedule exists and is covered by the theorem: six keys on four slots, interleaved, thread 5
